@@ -356,7 +356,7 @@ def parse_fn_block(lines, qual, opts, lineno, template):
                 cid, rest = mm.group(1), rest[mm.end():]
             d.loops.setdefault(n, []).append((kind, cid, rest))
         elif word == "hint":
-            m = re.match(r"(before|after)\s*(#\d+)?\s*", text)
+            m = re.match(r"(before|after_block|after)\s*(#\d+)?\s*", text)
             if not m:
                 raise ValueError("%s:%d: bad hint: %s" % (template, lineno, text))
             where = m.group(1)
@@ -781,7 +781,25 @@ class Gen:
             if nth >= len(hits):
                 raise AnchorLost("fn %s: hint anchor occurrence #%d not found: %r" % (fd.qual, nth, anchor))
             a, b = hits[nth]
-            if where == "before":
+            if where == "after_block":
+                # after the `}` closing the innermost block that contains the anchor
+                depth, k = 0, b + 1
+                endk = None
+                while k < len(toks):
+                    t = toks[k]
+                    if t.kind == "punct" and t.text in rustlex.OPEN:
+                        k = match_close(toks, k) + 1
+                        continue
+                    if t.kind == "punct" and t.text == "}":
+                        endk = k
+                        break
+                    k += 1
+                if endk is None:
+                    raise AnchorLost("fn %s: no enclosing block for hint anchor %r" % (fd.qual, anchor))
+                pos = body.find("\n", toks[endk].end)
+                pos = len(body) if pos < 0 else pos
+                body = body[:pos] + "\n" + code + body[pos:]
+            elif where == "before":
                 pos = body.rfind("\n", 0, toks[a].start) + 1
                 body = body[:pos] + code + "\n" + body[pos:]
             else:
